@@ -35,13 +35,13 @@ def mode_of(c):
 
 def step_script(st):
     return (tuple(st["muts"]), st["suite"], st["ccid"], st["scid"], st["client_auth"], st["fault"], st["bh"],
-            tuple(st["mask"]), st["no_cstore"], st["no_sstore"], st["name"], st["addr"], st.get("post", ""))
+            tuple(st["mask"]), st["no_cstore"], st["no_sstore"], st["name"], st["addr"], st.get("post", ""), st.get("migrate", False))
 
 
 def nontrivial_step(st):
     return bool(st["muts"] or st["fault"] or st["bh"] or any(a != "pass" for a in st["mask"]) or st["suite"]
                 or st["ccid"] >= 0 or st["scid"] >= 0 or st["client_auth"] or st["no_cstore"] or st["no_sstore"]
-                or st["name"] or st["addr"] or st.get("post"))
+                or st["name"] or st["addr"] or st.get("post") or st.get("migrate"))
 
 
 # ------------------------------------------------------------------ monitors (the property's statements)
@@ -175,6 +175,9 @@ def monitors(h):
                         and sess_on in nxt["ch_sid"]:
                     bad.append(("alerted-session-offered-again", i, "client sent fatal alert %d %s on a session and offers "
                                 "it in the next ClientHello" % (a["desc"], where)))
+                    if mode_of(nxt) == 1:
+                        bad.append(("alerted-session-resumed", i, "client sent fatal alert %d %s on a session and the next "
+                                    "connection resumes it" % (a["desc"], where)))
             else:
                 if sess_on in post_s and not post_s[sess_on]["nil"]:
                     bad.append(("alerted-session-still-stored", i, "server sent fatal alert %d %s on a session that its "
@@ -186,6 +189,13 @@ def monitors(h):
             if a.get("post"):
                 note("record-path fatal alert %d on an established connection observed on the wire (%s, %s)"
                      % (a["desc"], side, st.get("post", "")[2:]))
+        if st.get("migrate") and cok and sok:
+            if c.get("c_raddr") == "serverNAT":
+                note("peer address migrated before the end of the connection (client rAddr moved; store key must stay "
+                     "that of the dial address)")
+            else:
+                bad.append(("migration-did-not-happen", i, "scripted migration did not move the client's remote address "
+                            "(harness no longer exercises the migrated-key case)"))
         if st.get("post") and cok and sok and not any(a.get("post") and a["level"] == 2 and a["side"] == st["post"][0]
                                                       for a in c["alerts"]):
             note("forged record on an established connection did not provoke a fatal alert (%s%s)"
@@ -305,9 +315,11 @@ HOW = ("harness/overlay/root/zz_verif_c14_test.go: one client and one server sha
        "stores over the connections of `conns` (in order); before a connection the script applies `step.muts` to the "
        "stores, configures `step.fault` (ems/sems: ExtendedMasterSecret Require vs Disable; alpn: disjoint protocols; "
        "sverify/cverify: VerifyConnection returns an error; wrongpsk: client PSK differs; noccert: server requires "
-       "a client certificate, the client has none; `step.post` c_/s_ app0|ct99|enc99: "
-       "after establishment ONE forged record - plaintext epoch-0 application_data, plaintext epoch-0 content type 99, "
-       "or content type 99 sealed with the session keys - is delivered to the client/server, whose protected alert, "
+       "a client certificate, the client has none; `step.migrate`: after establishment the server's datagrams arrive from a second address and the "
+       "client's path challenge is answered, so the client's remote address moves; `step.post` c_/s_ app0|ct99|enc99: "
+       "after establishment ONE forged record - plaintext epoch-0 application_data or content type 99 (both discarded silently by the "
+       "current tree), or content type 99 sealed with the session keys (tls12_cid-wrapped when ids are in use; draws a "
+       "protected fatal decode_error) - is delivered to the client/server, whose protected alert, "
        "if any, is opened with the peer's keys), drops every datagram of "
        "`step.bh` side that carries a ChangeCipherSpec, and applies `step.mask` per emitted datagram index")
 
